@@ -395,3 +395,152 @@ def _op_compare(test: ast.expr, opv: str):
         if isinstance(b, ast.Name) and b.id == opv and isinstance(a, ast.Constant) and isinstance(a.value, str):
             return a.value
     return None
+
+
+# ---- added after the seeded change C34-r5seed1: the kind of an undo record matches what the store does
+_inner_run_c34 = run
+
+
+def _membership_facts(test: ast.expr, label: str, keyvar: str, dparam: str):
+    """What does leaving a test along `label` establish about `key in d`?  -> 'present' | 'absent' | None"""
+    want = label == "T"
+
+    def atom(t):
+        if isinstance(t, ast.Compare) and len(t.ops) == 1 and isinstance(t.ops[0], (ast.In, ast.NotIn)) and \
+                isinstance(t.left, ast.Name) and t.left.id == keyvar and dotted(t.comparators[0]) == dparam:
+            return "present" if isinstance(t.ops[0], ast.In) else "absent"
+        return None
+
+    def flip(v):
+        return {"present": "absent", "absent": "present"}.get(v)
+
+    a = atom(test)
+    if a is not None:
+        return a if want else flip(a)
+    if isinstance(test, ast.BoolOp):
+        if isinstance(test.op, ast.And) and want:      # every conjunct holds
+            facts = {atom(v) for v in test.values} - {None}
+        elif isinstance(test.op, ast.Or) and not want:  # every disjunct fails
+            facts = {flip(atom(v)) for v in test.values} - {None}
+        else:
+            return None
+        if len(facts) == 1:
+            return facts.pop()
+    return None
+
+
+def _undo_kind(ctx) -> int:
+    repo = ctx.repo
+    assign = repo.method(MOD, "set", "_assign")
+    exit_ = repo.method(MOD, "set", "__exit__")
+    dparam = "d"
+    ctx.require(dparam in assign.positional_params, "set._assign lost its dict parameter `d`")
+    cfg = CFG(assign.node)
+    # which ops does __exit__ undo by REMOVING the key (as opposed to storing the recorded value)?
+    loops = [l for l in ast.walk(exit_.node) if isinstance(l, ast.For)]
+    ctx.require(bool(loops) and isinstance(loops[0].target, ast.Tuple) and len(loops[0].target.elts) == 3,
+                "set.__exit__: loop over (op, path, value) records not found")
+    opv, _, valv = (e.id for e in loops[0].target.elts)
+    removing, restoring, default_removes = set(), set(), None
+
+    def effect(body) -> str:
+        rm = any(isinstance(n, ast.Call) and isinstance(n.func, ast.Attribute) and n.func.attr in ("pop", "__delitem__")
+                 for st in body for n in ast.walk(st)) or any(isinstance(n, ast.Delete) for st in body for n in ast.walk(st))
+        rs = any(isinstance(n, ast.Assign) and isinstance(n.targets[0], ast.Subscript) and isinstance(n.value, ast.Name)
+                 and n.value.id == valv for st in body for n in ast.walk(st))
+        if rm == rs:
+            raise AnalysisError("set.__exit__: cannot tell whether a handler removes the key or restores the value")
+        return "remove" if rm else "restore"
+
+    st = next((s for s in loops[0].body if isinstance(s, ast.If)), None)
+    while isinstance(st, ast.If):
+        op = _op_compare(st.test, opv)
+        ctx.require(op is not None, "set.__exit__: handler test is not `op == <literal>`")
+        (removing if effect(st.body) == "remove" else restoring).add(op)
+        if len(st.orelse) == 1 and isinstance(st.orelse[0], ast.If):
+            st = st.orelse[0]
+        else:
+            if st.orelse:
+                default_removes = effect(st.orelse) == "remove"
+            st = None
+    keyvars = set()
+    for n in cfg.nodes:
+        if n.kind == "stmt" and isinstance(n.ast, ast.Assign):
+            for t in n.ast.targets:
+                if isinstance(t, ast.Subscript) and dotted(t.value) == dparam and isinstance(t.slice, ast.Name):
+                    keyvars.add(t.slice.id)
+    ctx.require(len(keyvars) == 1, f"set._assign: stores use several key variables {sorted(keyvars)}")
+    keyvar = keyvars.pop()
+
+    from ..cfg import DataFlow
+
+    df = DataFlow(assign.node)
+
+    def resolve(t: ast.expr, at: int) -> ast.expr:
+        """a test that is a local flag: `missing = key not in d; if missing:`"""
+        if isinstance(t, ast.Name):
+            d_ = df.single_def(at, t.id)
+            if d_ is not None and d_.kind == "assign" and isinstance(d_.value, (ast.Compare, ast.BoolOp)):
+                return d_.value
+        return t
+
+    def transfer(node, state, label, succ):
+        st_ = node.ast
+        if node.kind == "test" and isinstance(st_, ast.If) and label in ("T", "F"):
+            f = _membership_facts(resolve(st_.test, node.idx), label, keyvar, dparam)
+            return f or state
+        if node.kind == "stmt" and isinstance(st_, ast.Assign):
+            for t in st_.targets:
+                if isinstance(t, ast.Name) and t.id in (keyvar, dparam):
+                    return "unknown"
+                if isinstance(t, ast.Subscript) and dotted(t.value) == dparam:
+                    return "present"
+        return state
+
+    at = forward_states(cfg, "unknown", transfer)
+    n = 0
+    for node in cfg.nodes:
+        if node.kind != "stmt" or node.ast is None:
+            continue
+        tup = _is_record_append(node.ast)
+        if tup is None:
+            continue
+        op = tup.elts[0]
+        if not (isinstance(op, ast.Constant) and isinstance(op.value, str)):
+            continue
+        removes = op.value in removing or (op.value not in restoring and default_removes is True)
+        states = at[node.idx]
+        n += 1
+        if removes:
+            bad = sorted(states - {"absent"})
+            ctx.check(not bad, "R-UNDO-KIND", f"{assign.qualname}:record '{op.value}'", assign.loc(node.ast),
+                      f"'{op.value}' (undone by removing the key) is recorded only where `{keyvar} not in {dparam}` holds",
+                      f"the record '{op.value}' is undone by removing the key, but it is appended on a path where "
+                      f"`{keyvar}` may already be in `{dparam}` ({', '.join(bad)}): the value that is about to be "
+                      "overwritten is not recorded, and leaving the block deletes the key instead of restoring it",
+                      key_detail="insert")
+        else:
+            bad = sorted(states - {"present"})
+            ctx.check(not bad, "R-UNDO-KIND", f"{assign.qualname}:record '{op.value}'", assign.loc(node.ast),
+                      f"'{op.value}' (undone by storing the recorded value) is recorded only where `{keyvar} in {dparam}` holds",
+                      f"the record '{op.value}' is undone by storing the recorded value, but it is appended on a path "
+                      f"where `{keyvar}` may be missing from `{dparam}` ({', '.join(bad)}): leaving the block creates a "
+                      "key that did not exist", key_detail="replace")
+    return n
+
+
+def run(ctx) -> None:  # noqa: F811
+    ctx.rule("R-UNDO-KIND", "path-sensitive membership typestate over set._assign (present / absent / unknown, "
+             "established by the `key in d` / `key not in d` tests on the edge taken — a disjunction establishes "
+             "nothing on its true edge): a record whose handler in __exit__ removes the key is appended only where the "
+             "key is absent, a record whose handler stores the recorded value only where it is present.  An existing "
+             "value that is replaced under an 'insert' record is lost when the block is left")
+    pending = None
+    try:
+        n = _undo_kind(ctx)
+        ctx.require(n >= 1, "R-UNDO-KIND found no undo record in set._assign")
+    except AnalysisError as e:
+        pending = e
+    _inner_run_c34(ctx)
+    if pending is not None:
+        raise pending
